@@ -89,7 +89,8 @@ theorem C08_drop_any_subset (ops : List C19.SerOp) (hwf : HistWF {} ops) (mask :
     Spec.Chunk.decodeSeq (wire (keepSel mask (trace {} ops))) = some (msgs (keepSel mask (trace {} ops))) ∧
     (Des.feed {} (wire (keepSel mask (trace {} ops)))).msgs = msgs (keepSel mask (trace {} ops)) ∧
     (Des.feed {} (wire (keepSel mask (trace {} ops)))).err = none := by
-  have h := SerSpec.reads_decodeSeq (hist_reads ops {} {} mask SR_init hwf)
+  obtain ⟨sE, hr, _⟩ := hist_reads ops {} {} mask SR_init hwf
+  have h := SerSpec.reads_decodeSeq hr
   obtain ⟨h1, h2, _⟩ := C06.C06_decodes_legal _ _ h
   exact ⟨h, h1, h2⟩
 
@@ -99,7 +100,8 @@ theorem C08_drop_any_subset_any_fragmentation (ops : List C19.SerOp) (hwf : Hist
     (c1 : Bytes) (r1 : List Bytes) (hcut : (c1 :: r1).flatten = wire (keepSel mask (trace {} ops))) :
     (C15.feedAll {} (c1 :: r1)).msgs = msgs (keepSel mask (trace {} ops)) ∧
     (C15.feedAll {} (c1 :: r1)).err = none := by
-  have h := SerSpec.reads_decodeSeq (hist_reads ops {} {} mask SR_init hwf)
+  obtain ⟨sE, hr, _⟩ := hist_reads ops {} {} mask SR_init hwf
+  have h := SerSpec.reads_decodeSeq hr
   rw [← hcut] at h
   exact C06.C06_decodes_legal_any_fragmentation c1 r1 _ h
 
